@@ -12,6 +12,7 @@ DATA = {}     # id(model) -> (model, [chunks])
 
 def clear():
     DATA.clear()
+    UNIT[0] = 1.0
 
 
 def cov(X, bias):
@@ -19,6 +20,7 @@ def cov(X, bias):
     return np.atleast_2d(Xc.T @ Xc / (X.shape[0] - 1 + (1 if bias else 0)))
 
 
+UNIT = [1.0]           # the unit the current case's data are expressed in (tolerances on coordinates are relative to it)
 WORST_COND = [1.0]     # largest condition number among the block covariances inverted for the current reference
 
 
@@ -100,7 +102,7 @@ def judge_state(ctx, m, where):
     if m.n_samples != X.shape[0]:
         ctx.fail("sample_count_not_conserved", cls=cls, mech=where, got=int(m.n_samples), fed=int(X.shape[0]))
     mean_err = float(np.abs(np.asarray(m.mean_vector, dtype=float) - X.mean(0)).max())
-    scale_x = max(1.0, float(np.abs(X).max()))
+    scale_x = max(UNIT[0], float(np.abs(X).max()))
     if not (mean_err <= 1e-9 * scale_x):
         ctx.fail("model_mean_is_not_the_sample_mean", cls=cls, mech=mech, err=mean_err)
     WORST_COND[0] = 1.0
@@ -108,6 +110,10 @@ def judge_state(ctx, m, where):
     nrm = max(1e-300, float(np.abs(R).max()))
     # inverting a block covariance costs cond x machine-epsilon digits (seen: 1.5e-7 at cond ~ 1e8 in 64 000 thorough cases)
     tol = (min(1e-4, max(1e-7, 1e-13 * WORST_COND[0])) if np.dtype(m.dtype) == np.float64 else 2e-5) * nrm
+    # data far from the origin: centring loses (offset / spread) x machine-epsilon digits before anything is inverted
+    far = float(np.abs(X).max()) / max(1e-300, float(X.std(0).min()))
+    if far > 1e3 and np.dtype(m.dtype) == np.float64:
+        tol = max(tol, min(1e-4, 1e-14 * far * WORST_COND[0]) * nrm)
     ctx.err("worst_block_condition_number", WORST_COND[0])
     if where != "init" and np.dtype(m.dtype) == np.float32:
         tol = 5e-3 * nrm      # float32 running second moments lose digits by cancellation (6e-4 seen in 20 000 cases)
